@@ -284,15 +284,25 @@ func makeTask(s spec, w *world, rec *Rec) func() {
 	p := s.p
 	switch s.kind {
 	case kShard:
-		n, a, m, pred := p[0], p[1], p[2], p[3]
+		n, a, m, pred, saveEvery := p[0], p[1], p[2], p[3], p[4]
 		return func() {
 			pre, pru := predFuncs(pred)
 			it := search.WithPruning(n, a, m, pre, pru)
+			k := 0
 			for it.Next() {
 				mg := gutil.ToModel(it.Value())
 				rec.add(gutil.G6(mg))
 				c, _ := model.Canon(mg)
 				rec.codes = append(rec.codes, c)
+				k++
+				if saveEvery > 0 && k%saveEvery == 0 {
+					// the shard checkpoints into its own buffer and carries on from the checkpoint
+					var buf bytes.Buffer
+					it.Save(&buf)
+					rec.add(string(buf.Bytes()))
+					pre2, pru2 := predFuncs(pred)
+					it = search.Load(&buf, pre2, pru2)
+				}
 			}
 			rec.boolean("again", it.Next())
 		}
@@ -469,7 +479,11 @@ func makeTask(s spec, w *world, rec *Rec) func() {
 			r := rng(seed)
 			rec.num("words", w.dawg.NumberOfWords())
 			for i := 0; i < count; i++ {
-				switch r.Next() % 4 {
+				switch r.Next() % 5 {
+				case 4:
+					enc, err := w.dawg.GobEncode()
+					rec.boolean("gobenc-err", err != nil)
+					rec.add(string(enc))
 				case 0, 1:
 					var word []byte
 					if len(w.wordList) > 0 && r.Next()%2 == 0 {
@@ -989,8 +1003,9 @@ func drawScenario(r *driver.Run, cold bool) scenario {
 		}
 		m := t.Range(2, 5)
 		pred := t.Draw(3)
+		saveEvery := []int{0, 0, 1, 3, 10}[t.Draw(5)]
 		for a := 0; a < m; a++ {
-			sc.specs = append(sc.specs, spec{kind: kShard, p: [6]int{n, a, m, pred}})
+			sc.specs = append(sc.specs, spec{kind: kShard, p: [6]int{n, a, m, pred, saveEvery}})
 		}
 		sc.name = fmt.Sprintf("shards n=%d m=%d pred=%d", n, m, pred)
 		sc.shardSet, sc.shardN, sc.shardP = true, n, pred
@@ -1062,7 +1077,7 @@ func drawSpec(r *driver.Run, k int, thorough bool) spec {
 	case kShard:
 		n := t.Range(3, 6)
 		m := t.Range(1, 4)
-		s.p = [6]int{n, t.Draw(m), m, t.Draw(3)}
+		s.p = [6]int{n, t.Draw(m), m, t.Draw(3), []int{0, 0, 1, 3, 10}[t.Draw(5)]}
 	case kLabeller:
 		s.p = [6]int{t.Range(2, 8), t.Range(1, 8), t.Draw(1000)}
 	case kIterator:
@@ -1163,11 +1178,26 @@ func raceKey(rep string) (key string, inTree bool) {
 	parts := strings.Split(first, "Previous ")
 	var tops []string
 	for _, part := range parts[:min(len(parts), 2)] {
-		// innermost frame that is not in the Go runtime
-		for _, m := range frameRe.FindAllStringSubmatch(part, 8) {
-			if strings.HasPrefix(m[1], "runtime.") {
-				continue
+		// innermost frame of the tree under test (falling back to the innermost frame outside
+		// the Go runtime if the stack has none)
+		ms := frameRe.FindAllStringSubmatch(part, 12)
+		pick := -1
+		for i, m := range ms {
+			if strings.Contains(m[1], "Tom-Johnston/mamba") {
+				pick = i
+				break
 			}
+		}
+		if pick < 0 {
+			for i, m := range ms {
+				if !strings.HasPrefix(m[1], "runtime.") {
+					pick = i
+					break
+				}
+			}
+		}
+		if pick >= 0 {
+			m := ms[pick]
 			fn := m[1]
 			if i := strings.LastIndex(fn, "/"); i >= 0 {
 				fn = fn[i+1:]
@@ -1182,7 +1212,6 @@ func raceKey(rep string) (key string, inTree bool) {
 				}
 			}
 			tops = append(tops, fn+" "+file+":"+m[3])
-			break
 		}
 	}
 	// any frame of the tree under test anywhere in the report also counts
